@@ -291,6 +291,10 @@ class AsyncPolicy:
                 on_attempt_end=on_attempt_end,
                 capture_timeline=capture_timeline,
             )
+        except (asyncio.CancelledError, KeyboardInterrupt, SystemExit):
+            # Also subclasses that additionally derive from Exception.
+            record_cancel(ctx)
+            raise
         except RetryExhaustedError as exc:
             # Raised by the operation itself (nested policy): same record as call().
             record_failure(ctx, exc.last_class or ErrorClass.UNKNOWN)
